@@ -838,3 +838,98 @@ def check_rel8_predicates(db, rep, rule):
                           "length is encoded short and the byte wraps round (the branch goes 256 bytes elsewhere), or is refused although it fits" %
                           (unparse(cond)[:70], f.name, v, off[:4]), line=st.line)
     return n
+
+
+def check_bank_prefix(db, rep, rule):
+    """The mandatory prefix of an x86 SIMD instruction is chosen from the register bank of its operands (get_common_reg_type):
+    an %xmm operand means the 0x66 / SSE form, a %ymm operand the VEX.256 form, only %mm and general registers the plain (MMX)
+    form.  The helper is evaluated (lib/funceval.py) for EVERY register of the banks, taken from the register enumerations,
+    in either operand position, and compared with the architecture's answer.  A range test that misses one register of a
+    bank (`reg < X86_XMM15`) makes the encoder emit the MMX form of an instruction whose listing names an %xmm register: the
+    listing and the bytes are different programs, and SSE code executes an MMX instruction (x87 tag word left non-empty)."""
+    import re
+    from facts import AnalysisBroken
+    from funceval import returns
+    tu = db.tu("orcx86insn")
+    f = tu.fn.get("get_common_reg_type")
+    if f is None:
+        raise AnalysisBroken("get_common_reg_type not found in orcx86insn.c")
+    rep.saw(f)
+    NOP, SSE, V256 = db.enum("ORC_X86_NO_PREFIX"), db.enum("ORC_X86_SSE_PREFIX"), db.enum("ORC_X86_AVX_VEX256_PREFIX")
+    banks = {"xmm": {}, "ymm": {}, "mm": {}}
+    for t in db.tus.values():
+        for k, v in t.enums.items():
+            m = re.match(r"^X86_(XMM|YMM|MM)(\d+)$", k)
+            if m:
+                banks[m.group(1).lower()][int(m.group(2))] = v
+    if len(banks["xmm"]) != 16 or len(banks["ymm"]) != 16 or len(banks["mm"]) != 8:
+        raise AnalysisBroken("register enumerations: %s" % {k: len(v) for k, v in banks.items()})
+    gp = db.enum("X86_EAX")
+    want = {"xmm": SSE, "ymm": V256, "mm": NOP}
+    pname = f.params[0]["name"]
+    n = 0
+    for bank, regs in sorted(banks.items()):
+        bad = []
+        for num, r in sorted(regs.items()):
+            for pos, st in (("first operand", {"prefix": NOP, "src[0]": r, "src[1]": 0, "dest": gp}), ("second operand", {"prefix": NOP, "src[0]": gp, "src[1]": 0, "dest": r}),
+                            ("both operands", {"prefix": NOP, "src[0]": r, "src[1]": 0, "dest": r})):
+                got = returns(tu, f, [st])
+                n += 1
+                if got != {want[bank]}:
+                    bad.append("%%%s%d as %s -> %s" % (bank, num, pos, sorted("?" if g is None else str(g) for g in got)))
+        rep.check(not bad, rule, "orc/orcx86insn.c::get_common_reg_type", "bank:%s" % bank,
+                  "every %%%s register, in either operand position, selects prefix %d" % (bank, want[bank]),
+                  "get_common_reg_type does not classify the whole %%%s bank alike (%s; expected %d): for that register the encoder emits another form of the "
+                  "instruction than the listing names (an SSE instruction on %%xmm15 without its 0x66 prefix is the MMX instruction on %%mm7)" %
+                  (bank, "; ".join(bad[:3]), want[bank]), line=f.line)
+    return n
+
+
+def check_names_stateless(db, rep, rule):
+    """The listing is built from strings that small helpers hand out for registers, conditions and sizes.  Such a helper must
+    return storage that never changes - a string literal or an entry of a constant table.  One that formats the name into a
+    function-static (or global) buffer and returns that buffer hands every caller the SAME storage: the text a caller prints
+    is whatever the most recent call - from any thread, or for the other operand of the same instruction - left there, while
+    the encoder works from the register numbers.  Listing and machine code then name different registers."""
+    from facts import AnalysisBroken, root_var, strip_casts
+    WR = ("snprintf", "sprintf", "vsnprintf", "vsprintf", "strcpy", "strncpy", "strcat", "strncat", "memcpy", "memmove", "memset")
+    n = 0
+    for f in db.all_functions():
+        if not f.relfile.startswith("orc/") or f.body is None or "char *" not in (f.ret or ""):
+            continue
+        if not any(t in f.relfile for t in ("x86", "sse", "avx", "mmx")):
+            continue
+        rets = [r for r in f.walk() if r.k == "ReturnStmt" and r.c and r.c[0] is not None]
+        if not rets:
+            continue
+        n += 1
+        rep.saw(f)
+        bad = None
+        for r in rets:
+            e = strip_casts(r.c[0])
+            rv = root_var(e) if e is not None and e.k != "CallExpr" else None
+            if rv is None or rv.get("dk") not in ("static_local", "global"):
+                continue
+            if e.k == "ArraySubscriptExpr" or "*" in (rv.ty or "").split("[")[0]:
+                continue                    # an entry of a table of strings
+            written = False
+            for g in ([f] if rv.get("dk") == "static_local" else [x for x in db.all_functions() if x.tu is f.tu]):
+                for x in g.walk():
+                    if x.k == "CallExpr" and x.name and x.name.replace("__builtin___", "").replace("_chk", "") in WR and x.args():
+                        a0 = root_var(x.args()[0])
+                        if a0 is not None and a0.name == rv.name and a0.get("dk") == rv.get("dk"):
+                            written = True
+                    if x.k in ("BinaryOperator", "CompoundAssignOperator") and x.op.endswith("=") and x.op not in ("==", "!=", "<=", ">="):
+                        l0 = root_var(x.c[0])
+                        if l0 is not None and l0.name == rv.name and l0.get("dk") == rv.get("dk"):
+                            written = True
+            if written:
+                bad = (r, rv.name)
+        rep.check(bad is None, rule, "%s::%s" % (f.relfile, f.name), f.name,
+                  "%s returns literals / constant table entries only" % f.name,
+                  "%s returns the %s buffer `%s`, which it (re)writes on every call: all callers share one piece of storage, so the name printed in the listing "
+                  "is the one formatted by the latest call - of another thread compiling at the same time, or for the other operand - while the machine code "
+                  "is encoded from the register numbers" % (f.name, "function-static" if bad and True else "", bad[1] if bad else ""), line=bad[0].line if bad else None)
+    if n < 8:
+        raise AnalysisBroken("only %d name helpers (functions returning char * in the x86 units) found" % n)
+    return n
